@@ -506,4 +506,78 @@ theorem C12_engine_sound (kb : FKB ι α) (i j : ι) (rest : List ι) (s : FStat
     rw [hrb, ← hrg]
     exact this
 
+/-! ## non-vacuity and concrete numbers over ℚ -/
+
+/-- Forall FALSE, instances [TRUE, UNKNOWN, UNKNOWN]: nothing is tightened -/
+example : qDown true (⟨0, 0⟩ : Bounds ℚ) [⟨1, 1⟩, ⟨0, 1⟩, ⟨0, 1⟩] = [⟨0, 1⟩, ⟨0, 1⟩, ⟨0, 1⟩] := by
+  rw [qDown_forall_eq]; simp [allProp, clamp01]
+
+/-- Forall FALSE, instances [TRUE, TRUE, UNKNOWN]: the third is forced FALSE -/
+example : qDown true (⟨0, 0⟩ : Bounds ℚ) [⟨1, 1⟩, ⟨1, 1⟩, ⟨0, 1⟩] = [⟨0, 1⟩, ⟨0, 1⟩, ⟨0, 0⟩] := by
+  rw [qDown_forall_eq]; simp [allProp, clamp01]
+
+/-- Exists TRUE, instances [FALSE, UNKNOWN, UNKNOWN]: nothing is tightened -/
+example : qDown false (⟨1, 1⟩ : Bounds ℚ) [⟨0, 0⟩, ⟨0, 1⟩, ⟨0, 1⟩] = [⟨0, 1⟩, ⟨0, 1⟩, ⟨0, 1⟩] := by
+  rw [qDown_exists_eq]; simp [exProp, clamp01]
+
+/-- Exists TRUE, instances [FALSE, FALSE, UNKNOWN]: the third is forced TRUE -/
+example : qDown false (⟨1, 1⟩ : Bounds ℚ) [⟨0, 0⟩, ⟨0, 0⟩, ⟨0, 1⟩] = [⟨0, 1⟩, ⟨0, 1⟩, ⟨1, 1⟩] := by
+  rw [qDown_exists_eq]; simp [exProp, clamp01]
+
+/-- an axiom Forall makes every instance TRUE -/
+example : qDown true (⟨1, 1⟩ : Bounds ℚ) [⟨0, 1⟩, ⟨0, 1⟩, ⟨1/2, 1⟩] = [⟨1, 1⟩, ⟨1, 1⟩, ⟨1, 1⟩] := by
+  rw [qDown_forall_eq]; simp [allProp, clamp01]
+
+/-- graded: the lower bound 1/2 is passed to all; no upper bound is forced
+(`3/4 + Σ_{j≠k} (1 - Lⱼ) ≥ 1` for every `k`) -/
+example : qDown true (⟨1/2, 3/4⟩ : Bounds ℚ) [⟨1/2, 1⟩, ⟨3/4, 1⟩, ⟨0, 1⟩]
+    = [⟨1/2, 1⟩, ⟨1/2, 1⟩, ⟨1/2, 1⟩] := by
+  rw [qDown_forall_eq]; simp [allProp, clamp01]; norm_num
+
+/-- the hypotheses of `C12_sound_forall` are satisfiable -/
+example : List.Forall₂ (fun p x => p.lo ≤ x ∧ x ≤ p.hi)
+    (qDown true (⟨1/4, 1/4⟩ : Bounds ℚ) [⟨1/2, 1⟩, ⟨0, 1⟩]) [3/4, 1/2] := by
+  apply C12_sound_forall
+  · refine List.Forall₂.cons ?_ (List.Forall₂.cons ?_ List.Forall₂.nil) <;> norm_num
+  · intro x hx; simp at hx; rcases hx with rfl | rfl <;> norm_num
+  · simp [Lconj, clamp01]; norm_num
+  · simp [Lconj, clamp01]; norm_num
+
+/-- … and the proposals of that example really tighten: `[1/2,1] ↦ [1/4,1]`, `[0,1] ↦ [1/4,3/4]` -/
+example : qDown true (⟨1/4, 1/4⟩ : Bounds ℚ) [⟨1/2, 1⟩, ⟨0, 1⟩] = [⟨1/4, 1⟩, ⟨1/4, 3/4⟩] := by
+  rw [qDown_forall_eq]; simp [allProp, clamp01]; norm_num
+
+/-- `0 = P(x)`, `1 = ∀x P(x)` -/
+def exKB12 : FKB Nat ℚ := fun i =>
+  match i with
+  | 1 => { kind := .all, ops := [0], bias := 1, alpha := 1, world := ⟨0, 1⟩, free := [] }
+  | _ => { kind := .pred, bias := 1, alpha := 1, world := ⟨0, 1⟩ }
+
+/-- `P(0), P(1)` TRUE, `P(2)` UNKNOWN, `∀x P(x)` FALSE -/
+def exS12 : FState Nat ℚ :=
+  ⟨[(0, [⟨[0], ⟨1, 1⟩, ⟨1, 1⟩⟩, ⟨[1], ⟨1, 1⟩, ⟨1, 1⟩⟩, ⟨[2], ⟨0, 1⟩, ⟨0, 1⟩⟩]),
+    (1, [⟨[], ⟨0, 0⟩, ⟨0, 0⟩⟩])]⟩
+
+/-- the engine forces `P(2)` FALSE (the only instance that is not TRUE) -/
+example : ((fDownQuant exKB12 1 exS12).1.get 0).find? [2] = some ⟨[2], ⟨0, 1⟩, ⟨0, 0⟩⟩ := by
+  have h := C12_engine_fully_quantified exKB12 1 0 [] exS12 rfl rfl (by decide) (by decide) 2
+    ⟨[2], ⟨0, 1⟩, ⟨0, 1⟩⟩ ⟨0, 0⟩ (by simp [exS12, FState.get])
+    (by
+      change (qDown true _ _)[2]? = _
+      rw [qDown_forall_eq]
+      simp [exS12, FState.get, Table.getD, Table.find?, allProp, clamp01])
+  rw [h]
+  simp [aggregate, clamp01]
+
+/-- a reading of the body consistent with the table `exS12` -/
+def exV12 : Gr → ℚ := fun g => if g = [2] then 0 else 1
+
+/-- the hypotheses of `C12_engine_sound` are satisfiable -/
+example : ∀ g r', ((fDownQuant exKB12 1 exS12).1.get 0).find? g = some r' →
+    r'.b.lo ≤ exV12 g ∧ exV12 g ≤ r'.b.hi := by
+  intro g r' h
+  refine C12_engine_sound exKB12 1 0 [] exS12 rfl (by decide) (by decide) exV12 ?_ ?_ ?_ g r' h
+  · intro g; unfold exV12; split <;> norm_num
+  · simp [exS12, FState.get, exV12]
+  · simp [exKB12, exS12, FState.get, exV12, groupKey, qVal, Lconj, clamp01, Table.getD, Table.find?]
 end LNN
